@@ -148,7 +148,7 @@ func valid(c *Call) (bool, bool) {
 		return wf, hr.rows == hr.cols && len(c.Pi) == hr.rows && allIn(c.Pi, hr.rows)
 	case "MNewDense":
 		// the Real instantiations document a single value as a fill value
-		return wf, I[1] >= 0 && I[2] >= 0 && (I[0] == I[1]*I[2] || (curType == "r64" && I[0] == 1))
+		return wf, I[1] >= 0 && I[2] >= 0 && (I[0] == I[1]*I[2] || (isRealType(curType) && I[0] == 1))
 	case "MNewSparse":
 		ok := len(c.Pi) == I[0] && len(c.Pj) == I[0] && I[1] >= 0 && I[2] >= 0
 		return wf, ok && allIn(c.Pi, I[1]) && allIn(c.Pj, I[2])
@@ -395,6 +395,7 @@ func genCalls(rng *Rng, nrand int) []Call {
 			}
 		}
 	}
+	cs = append(cs, viewIndexCalls()...)
 	// constructors from slices
 	for r := 0; r <= 3; r++ {
 		for c := 0; c <= 3; c++ {
@@ -555,6 +556,66 @@ func genCalls(rng *Rng, nrand int) []Call {
 	}
 	return cs
 }
+// viewIndexCalls: the out-of-view index stream.  Proper sub-views (nested slices, transposes of
+// slices, slices of transposes) of a 4x5 and a 5x5 dense parent; every index pair in
+// -1 .. parent extent, so that every index that is OUTSIDE THE VIEW BUT INSIDE THE PARENT'S STORAGE
+// occurs, for At / ConstAt / Float64At, Swap (either argument pair), SwapRows and SwapColumns
+// (square views), Row and Col.  The observable is (panic or not, parent storage unchanged); the
+// model says index() fails exactly outside [0,rows) x [0,cols) of the VIEW (Props.index_guard_exact).
+func viewIndexCalls() []Call {
+	var cs []Call
+	add := func(c Call) { cs = append(cs, c) }
+	sl := func(a, b, c, d int) MOp { return MOp{Op: "slice", A: a, B: b, C: c, D: d} }
+	T := MOp{Op: "T"}
+	type pv struct {
+		r, c int
+		ops  []MOp
+	}
+	views := []pv{
+		{4, 5, []MOp{sl(1, 3, 1, 4)}},                    // interior 2x3
+		{4, 5, []MOp{sl(0, 2, 0, 2)}},                    // leading 2x2
+		{4, 5, []MOp{sl(2, 4, 3, 5)}},                    // trailing 2x2
+		{4, 5, []MOp{sl(0, 4, 1, 3)}},                    // all rows, inner columns
+		{4, 5, []MOp{sl(1, 3, 0, 5)}},                    // inner rows, all columns
+		{4, 5, []MOp{sl(0, 3, 0, 4), sl(1, 3, 1, 3)}},    // nested slice 2x2
+		{4, 5, []MOp{sl(1, 4, 1, 5), sl(0, 2, 1, 3), sl(0, 1, 0, 2)}}, // triple nesting 1x2
+		{4, 5, []MOp{sl(1, 3, 1, 4), T}},                 // transpose of a slice 3x2
+		{4, 5, []MOp{T, sl(1, 4, 1, 3)}},                 // slice of the transpose 3x2
+		{4, 5, []MOp{T, sl(0, 3, 0, 3), T, sl(1, 3, 0, 2)}}, // slice / transpose alternating 2x2
+		{5, 5, []MOp{sl(1, 4, 1, 4)}},                    // interior 3x3 (square: SwapRows/SwapColumns)
+		{5, 5, []MOp{sl(0, 3, 2, 5), T}},                 // square, transposed
+		{5, 5, []MOp{sl(0, 4, 0, 4), sl(1, 3, 1, 3)}},    // square, nested
+		{5, 5, []MOp{sl(2, 2, 1, 4)}},                    // empty row extent
+		{5, 5, []MOp{T}},                                 // the whole parent, transposed (no proper view)
+	}
+	for _, v := range views {
+		m := &M{K: "dense", L: v.r * v.c, R: v.r, C: v.c, Ops: v.ops}
+		h := mhdr(m)
+		hi := v.r
+		if v.c > hi {
+			hi = v.c
+		}
+		for i := -1; i <= hi; i++ {
+			for j := -1; j <= hi; j++ {
+				for o := 0; o < 3; o++ {
+					add(Call{Op: "MAt", O: o, MR: m, I: []int{i, j}})
+				}
+				if h.rows > 0 && h.cols > 0 {
+					add(Call{Op: "MSwap", MR: m, I: []int{i, j, 0, 0}})
+					add(Call{Op: "MSwap", MR: m, I: []int{h.rows - 1, h.cols - 1, i, j}})
+				}
+				if h.rows == h.cols {
+					add(Call{Op: "MSwapRows", MR: m, I: []int{i, j}})
+					add(Call{Op: "MSwapCols", MR: m, I: []int{i, j}})
+				}
+			}
+			add(Call{Op: "MRow", MR: m, I: []int{i}})
+			add(Call{Op: "MCol", MR: m, I: []int{i}})
+		}
+	}
+	return cs
+}
+
 func max0(x int) int {
 	if x < 0 {
 		return 0
@@ -582,13 +643,23 @@ func typesFor(c *Call) []string {
 				} else {
 					h.rows, h.cols = o.B-o.A, o.D-o.C
 					if h.rows < 0 || h.cols < 0 {
-						return []string{"f64", "f32", "int"}
+						return nonRealTypes()
 					}
 				}
 			}
 		}
 	}
 	return typeOrder
+}
+
+func nonRealTypes() []string {
+	var ts []string
+	for _, t := range typeOrder {
+		if !isRealType(t) {
+			ts = append(ts, t)
+		}
+	}
+	return ts
 }
 
 // subclass refines an anomaly site so that known findings can be matched narrowly
@@ -608,6 +679,51 @@ func subclass(c *Call) string {
 		return fmt.Sprintf("len%+d", sign(len(c.Pi)-c.R.N))
 	case "MPermRows", "MPermCols", "MSymPerm":
 		return fmt.Sprintf("len%+d", sign(len(c.Pi)-c.MR.R))
+	case "MRow":
+		// Row(i) on a matrix without columns performs no element access at all
+		if mhdr(c.MR).cols == 0 {
+			return "empty-extent"
+		}
+		return "nonempty"
+	case "MCol":
+		if mhdr(c.MR).rows == 0 {
+			return "empty-extent"
+		}
+		return "nonempty"
+	case "MSwapRows", "MSwapCols":
+		if h := mhdr(c.MR); h.rows == 0 && h.cols == 0 {
+			return "empty-extent"
+		}
+		return "nonempty"
+	case "VAsMatrix":
+		if c.I[0] < 0 || c.I[1] < 0 {
+			return "negative-dim"
+		}
+		return "other"
+	case "VNewSparse":
+		if len(c.Pi) != c.I[0] {
+			return "length"
+		}
+		for _, x := range c.Pi {
+			if x >= c.I[1] {
+				return "index>=n"
+			}
+		}
+		if !distinct(c.Pi) {
+			return "repeated"
+		}
+		return "negative-index"
+	case "MdotM":
+		ha, hb, hr := mhdr(c.MA), mhdr(c.MB), mhdr(c.MR)
+		if ha.rows == 0 || ha.cols == 0 || hb.cols == 0 || hr.rows == 0 || hr.cols == 0 {
+			return "empty"
+		}
+		return "nonempty"
+	case "AEntry":
+		if c.I[2] != 0 {
+			return "option"
+		}
+		return "shape"
 	}
 	return ""
 }
@@ -669,9 +785,9 @@ func runGuard(opts Opts, calls []Call, name string) {
 			w.Add(coqCase(g), *g, fmt.Sprint(*g), true)
 			w.Count("type-variant")
 			if a := classify(c, g.Obs); a != "" && fmt.Sprint(g.Obs) != fmt.Sprint(*first) {
-				k := site(c) + "[" + g.Types[0] + "]|" + a
+				k := site(c) + "[" + g.Types[0] + "]|" + a + "|" + subclass(c)
 				if anom[k] == nil {
-					anom[k] = &Anomaly{Site: site(c) + "[" + g.Types[0] + "]", Type: a, Call: *c, Obs: g.Obs}
+					anom[k] = &Anomaly{Site: site(c) + "[" + g.Types[0] + "]", Sub: subclass(c), Type: a, Call: *c, Obs: g.Obs}
 				}
 				anom[k].Count++
 			}
@@ -693,6 +809,19 @@ func runGuard(opts Opts, calls []Call, name string) {
 			w.Count("class:invalid")
 		}
 		w.CountN("executions", len(typesFor(c)))
+		for _, tn := range typesFor(c) {
+			w.Count("type:" + tn)
+		}
+		// the out-of-view index stream: a proper sub-view, an index pair outside it, an operation that goes through index()
+		if c.MR != nil && len(c.MR.Ops) > 0 && wf && !v {
+			switch c.Op {
+			case "MAt", "MSwap", "MSwapRows", "MSwapCols", "MRow", "MCol":
+				w.Count("out-of-view:" + c.Op)
+				for _, tn := range typesFor(c) {
+					w.Count("out-of-view-exec:" + tn)
+				}
+			}
+		}
 		if a := classify(c, *first); a != "" {
 			k := site(c) + "|" + a + "|" + subclass(c)
 			if anom[k] == nil {
